@@ -87,7 +87,7 @@ func RunWorker(prop, hname, tier string, caseIdx int, outDir string, verbose boo
 	in := interp.New(l.Prog, l.Pkg, cfg)
 	backends := h.Backends
 	if len(backends) == 0 {
-		backends = []string{"cvc5", "z3-new"}
+		backends = []string{"cvc5", "z3"}
 	}
 	oblS := ts.OblS
 	if oblS == 0 {
